@@ -195,6 +195,28 @@ func genFuzz(g *genCtx) {
 					setPrefix(m)
 					both(m)
 				}
+				// long tails: thousands of (mostly empty) parameters under distinct tags - work and memory stay proportional
+				if it == 0 {
+					for _, cnt := range []int{600, 4000, 16000} {
+						if cnt > 4000 && !g.thorough() && tn[:6] != "smgp30" {
+							continue
+						}
+						m := append([]byte{}, fixed...)
+						for k := 0; k < cnt; k++ {
+							tag := 0x1400 + k
+							vl := 0
+							if k%97 == 0 {
+								vl = 3
+							}
+							m = append(m, byte(tag>>8), byte(tag), 0, byte(vl))
+							m = append(m, make([]byte, vl)...)
+						}
+						if len(m) < 65536 || layouts[tn].Fields[0].W == 4 {
+							setPrefix(m)
+							both(m)
+						}
+					}
+				}
 			}
 		}
 	}
